@@ -40,9 +40,28 @@ LARK = [
     ("substr", 'start: S "."\nS: %regex { "substring_words": "the quick brown fox jumps" }\n'),
     ("free_text", 'start: /(.|\\n)*/\n'),
     ("text_then_tag", 'start: /[^<]*/ "<end>"\n'),
+    # docs/syntax.md "Tool calling": lazy and greedy lexemes live in the same lexer state
+    ("doc_toolcall", 'start: ( f_foo | f_bar )* f_end\nf_end: TEXT\nTEXT: /(.|\\n)*/\n\n'
+                     'f_foo_hd[lazy]: TEXT "<function"\nf_foo: f_foo_hd "=foo>" %json { "type": "object" } "</function>"\n\n'
+                     'f_bar_hd[lazy]: TEXT "<function"\nf_bar: f_bar_hd "=bar>" /[0-9]+/ "</function>"\n'),
+    ("doc_think", 'start: "<think>" "\\n" body "</think>" address\nbody[lazy]: /(.|\\n)*<\\/think>/\n'
+                  'address: %json {"type":"object","properties":{"zip":{"type":"number"}},"required":["zip"],"additionalProperties":false}\n'),
+    ("lazy_mixed", 'start: (a | b) "."\na: T "!"\nb: hd "=" /[0-9]+/\nT: /[a-z ]+/\nhd[lazy]: /[a-z ]*key/\n'),
     ("param_perm", 'start    :  perm::0x0\nperm::_  :  ""                  %if is_ones([0:3])\n'
                    '         |  a::_ | b::_ | c::_\na::_     :  "a" perm::set_bit(0) %if !bit_and(0x1)\n'
                    'b::_     :  "b" perm::set_bit(1) %if !bit_and(0x2)\nc::_     :  "c" perm::set_bit(2) %if !bit_and(0x4)\n'),
+]
+
+# Outside the core fragment (stop=, max_tokens=, temperature=): used only by properties whose
+# quantifier says "every grammar" (C11).
+EXT_LARK = [
+    ("stop_eos_mid", 'start: gen "\\n" /[0-9]+/\ngen[stop=""]: /[a-z ]*/\n'),
+    ("stop_eos_tail", 'start: "q:" body TAIL\nbody[stop=""]: /[a-z]*/\nTAIL: /[a-z]*[0-9]/\n'),
+    # (the documented `with_stop "<end>"` pattern panics in compute_mask: known finding under C20,
+    #  exercised there, not here)
+    ("max_tokens", 'start: a "." b\na[max_tokens=3]: /[a-z ]+/\nb: /[0-9]{1,3}/\n'),
+    ("temperature", 'start: a b\na[temperature=0.5]: /[a-z]+/\nb: "!" | "?"\n'),
+    ("suffix_capture", 'start: s1 "x" s1\ns1[capture, suffix=";"]: /[a-z]*/\n'),
 ]
 
 REGEX = [
@@ -108,3 +127,7 @@ def all_grammars():
         g.append(("js:" + n, {"kind": "json", "schema": s}))
     g.extend(repo_samples())
     return g
+
+
+def ext_grammars():
+    return [("ext:" + n, {"kind": "lark", "text": t}) for n, t in EXT_LARK]
